@@ -171,7 +171,7 @@ def rangeItems (init limit step : Int) : List Value :=
   if limit ≤ init ∨ step ≤ 0 then []
   else
     let count := ((limit - init) + step - 1) / step
-    (List.range count.toNat).map fun k => Value.int (Int64.ofInt (init + (k : Int) * step))
+    (List.range count.toNat).map fun (k : Nat) => Value.int (Int64.ofInt (init + (k : Int) * step))
 
 def augment (m1 m2 : Frame) : Frame :=
   m2.foldl (fun acc kv => Value.insert acc kv.1 kv.2) (m1.foldl (fun acc kv => Value.insert acc kv.1 kv.2) [])
@@ -670,17 +670,30 @@ def jsonFloat (x : F64) : Option Bytes :=
   if x.isNaN || x.isInf then none
   else if x.isZero then some (if x.sign then [45, 48] else [48])
   else
-    let (digits, dp) := F64.shortest x
-    let digs := F64.natDigits digits
-    -- value = 0.d1d2… × 10^dp
-    if -6 < dp ∧ dp ≤ 21 then some (F64.fmtF x.sign digs dp)
+    let (c, k) := F64.shortest x
+    let digs := F64.natDigits c
+    let dp : Int := (digs.length : Int) + k          -- value = 0.d1d2… × 10^dp
+    if -5 ≤ dp ∧ dp ≤ 21 then some (F64.fmtF x.sign digs dp)
     else
+      -- 'e' formatting; encoding/json rewrites e-0d to e-d (and nothing else)
       let e := F64.fmtE x.sign digs dp
-      -- fmtE writes e±dd; json drops a leading zero of a two-digit negative exponent and the '+'?  No:
-      -- encoding/json keeps the sign as produced by 'e' formatting and only rewrites e-0d to e-d.
       some (match e.reverse with
         | d :: 48 :: 45 :: 101 :: r => (d :: 45 :: 101 :: r).reverse
         | _ => e)
+
+def insertByKey {α : Type} (x : Bytes × α) : List (Bytes × α) → List (Bytes × α)
+  | [] => [x]
+  | y :: ys => if Value.bytesLe x.1 y.1 then x :: y :: ys else y :: insertByKey x ys
+
+/-- entries in ascending key order -/
+def sortByKey {α : Type} : List (Bytes × α) → List (Bytes × α)
+  | [] => []
+  | x :: xs => insertByKey x (sortByKey xs)
+
+def joinC : List Bytes → Bytes
+  | [] => []
+  | [x] => x
+  | x :: y :: r => x ++ [44] ++ joinC (y :: r)
 
 mutual
 def jsonValue : Value → Option Bytes
@@ -698,7 +711,7 @@ def jsonValue : Value → Option Bytes
   | .map id kvs =>
     if id == 0 then some Value.sNull
     else match jsonKvs kvs with
-      | some items => some ([123] ++ joinC (Value.sortStrings items) ++ [125])
+      | some items => some ([123] ++ joinC ((sortByKey items).map (·.2)) ++ [125])
       | none => none
 def jsonList : List Value → Option Bytes
   | [] => some []
@@ -706,18 +719,13 @@ def jsonList : List Value → Option Bytes
   | x :: y :: r => match jsonValue x, jsonList (y :: r) with
     | some a, some b => some (a ++ [44] ++ b)
     | _, _ => none
-/-- `"key":value` items (sorted by the caller: encoding/json sorts map keys; sorting the items sorts by
-    key as long as no key is a proper prefix issue — keys are compared through their quoted form) -/
-def jsonKvs : List (Bytes × Value) → Option (List Bytes)
+/-- (key, `"key":value`) items; encoding/json emits them in ascending key order -/
+def jsonKvs : List (Bytes × Value) → Option (List (Bytes × Bytes))
   | [] => some []
   | (k, v) :: r => match jsonValue v, jsonKvs r with
-    | some a, some b => some ((jsonString k ++ [58] ++ a) :: b)
+    | some a, some b => some ((k, jsonString k ++ [58] ++ a) :: b)
     | _, _ => none
 end
-where joinC : List Bytes → Bytes
-  | [] => []
-  | [x] => x
-  | x :: y :: r => x ++ [44] ++ joinC (y :: r)
 
 /-- `directive.Apply(result, args)` under evalPrint's recover, on a VALUE: `none` = error -/
 def applyDirective (impl : Bytes) (v : Value) (args : List Value) : Option Value :=
@@ -856,6 +864,24 @@ def evalMCases (g : GEnv) (phs : List (Nat × Bytes × Run)) (body : MsgParts) :
   | .cons _ rest, i + 1, ctx, st => evalMCases g phs body rest i ctx st
 end
 
+/-- walkBlock: push, walk, pop -/
+def walkBlockOf (body : Run) : Run := fun ctx st =>
+  let (ctx1, st1) := push ctx st
+  let r := body ctx1 st1
+  match r.cls with
+  | .ok =>
+    match pop r.ctx with
+    | none => ⟨.err, r.ctx, r.st⟩
+    | some ctx2 => ⟨.ok, ctx2, r.st⟩
+  | _ => r
+
+/-- renderBlock: walkBlock with the writer swapped for a buffer; the buffer's bytes are returned and
+    nothing reaches the main output.  On an error the writer is NOT restored in Go (the state is
+    abandoned); what the caller's writer received is what it had before. -/
+def renderBlockOf (body : Run) (ctx : Scope) (st : St) : R × Bytes :=
+  let r := walkBlockOf body ctx { st with out := [] }
+  (⟨r.cls, r.ctx, { r.st with out := st.out }⟩, bufBytes r.st.out)
+
 /-! ### the tree walk -/
 
 /-- the effective `s.autoescape != AutoescapeOff` of a template's state -/
@@ -898,7 +924,7 @@ def execCmd : Cmd → Run
         | some s => ⟨.ok, ctx, write st1 (s ++ [45] ++ suffix)⟩
   | .debugger _, ctx, st => ⟨.ok, ctx, st⟩
   | .log _ body, ctx, st =>
-    let r := renderBlock body ctx st
+    let r := renderBlockOf (execBody body) ctx st
     ⟨r.1.cls, r.1.ctx, r.1.st⟩
   | .ifc _ conds, ctx, st => execConds conds ctx st
   | .forc _ var list body ifEmpty, ctx, st =>
@@ -906,7 +932,7 @@ def execCmd : Cmd → Run
     | some (.list _ xs, st1) =>
       if xs.isEmpty then
         match ifEmpty with
-        | some b => walkBlock b ctx st1
+        | some b => walkBlockOf (execBody b) ctx st1
         | none => ⟨.ok, ctx, st1⟩
       else forLoop (execBody body) var ((xs.length : Int) - 1) xs 0 ctx st1
     | some (_, st1) => ⟨.err, ctx, st1⟩
@@ -955,7 +981,7 @@ def execCmd : Cmd → Run
       | none => ⟨.err, ctx, st1⟩
       | some st2 => ⟨.ok, ctx, st2⟩
   | .letContent _ name body, ctx, st =>
-    let r := renderBlock body ctx st
+    let r := renderBlockOf (execBody body) ctx st
     match r.1.cls with
     | .ok =>
       match set r.1.ctx r.1.st name (.str r.2) with
@@ -978,41 +1004,23 @@ def execCmds : CmdList → Run
     match r.cls with
     | .ok => execCmds rest r.ctx r.st
     | _ => r
-/-- walkBlock: push, walk, pop -/
-def walkBlock : Block → Run
-  | b, ctx, st =>
-    let (ctx1, st1) := push ctx st
-    let r := execBody b ctx1 st1
-    match r.cls with
-    | .ok =>
-      match pop r.ctx with
-      | none => ⟨.err, r.ctx, r.st⟩
-      | some ctx2 => ⟨.ok, ctx2, r.st⟩
-    | _ => r
-/-- renderBlock: walkBlock with the writer swapped for a buffer; the buffer's bytes are returned and
-    nothing reaches the main output.  On an error the writer is NOT restored in Go (the state is
-    abandoned); what the caller's writer received is what it had before. -/
-def renderBlock : Block → Scope → St → R × Bytes
-  | b, ctx, st =>
-    let r := walkBlock b ctx { st with out := [] }
-    (⟨r.cls, r.ctx, { r.st with out := st.out }⟩, bufBytes r.st.out)
 def execConds : CondList → Run
   | .nil, ctx, st => ⟨.ok, ctx, st⟩
   | .cons _ cond body rest, ctx, st =>
     match cond with
-    | none => walkBlock body ctx st
+    | none => walkBlockOf (execBody body) ctx st
     | some c =>
       match evalIn g c ctx st with
       | none => ⟨.err, ctx, st⟩
-      | some (v, st1) => if v.truthy then walkBlock body ctx st1 else execConds rest ctx st1
+      | some (v, st1) => if v.truthy then walkBlockOf (execBody body) ctx st1 else execConds rest ctx st1
 def execCases : CaseList → Value → Run
   | .nil, _, ctx, st => ⟨.ok, ctx, st⟩
   | .cons _ values body rest, sv, ctx, st =>
     match matchCase g ctx sv values st with
     | none => ⟨.err, ctx, st⟩
-    | some (true, st1) => walkBlock body ctx st1
+    | some (true, st1) => walkBlockOf (execBody body) ctx st1
     | some (false, st1) =>
-      if values.isEmpty then walkBlock body ctx st1       -- default / last case
+      if values.isEmpty then walkBlockOf (execBody body) ctx st1       -- default / last case
       else execCases rest sv ctx st1
 /-- the `for _, param := range node.Params` loop: values are evaluated (content rendered) in the
     CALLER's context and bound in the top frame of `callData` -/
@@ -1026,7 +1034,7 @@ def execParams : ParamList → Scope → Run
       | none => ⟨.err, ctx, st1⟩
       | some st2 => execParams rest cd ctx st2
   | .content _ key body rest, cd, ctx, st =>
-    let r := renderBlock body ctx st
+    let r := renderBlockOf (execBody body) ctx st
     match r.1.cls with
     | .ok =>
       match set cd r.1.st key (.str r.2) with
@@ -1046,14 +1054,14 @@ def walkMsgBody : MsgParts → Run
     -- walkPlural
     match evalIn g value ctx st with
     | some (.int i, st1) =>
-      let r := walkPluralCases cases dflt i.toInt ctx st1
+      let r := walkPluralCases cases (walkMsgBody dflt) i.toInt ctx st1
       match r.cls with
       | .ok => walkMsgBody rest r.ctx r.st
       | _ => r
     | some (_, st1) => ⟨.err, ctx, st1⟩
     | none => ⟨.err, ctx, st⟩
-def walkPluralCases : PluralCases → MsgParts → Int → Run
-  | .nil, dflt, _, ctx, st => walkMsgBody dflt ctx st
+def walkPluralCases : PluralCases → Run → Int → Run
+  | .nil, dflt, _, ctx, st => dflt ctx st
   | .cons _ v _ body rest, dflt, i, ctx, st =>
     if i == v then walkMsgBody body ctx st else walkPluralCases rest dflt i ctx st
 /-- `s.walk(placeholder.Body)` -/
